@@ -1,7 +1,7 @@
 (** C14 — A session trades only at scheduled rebalances after burn-in; equity is daily. *)
 From Coq Require Import ZArith QArith String List Sorted.
 From QS Require Import theories.Num theories.Position theories.Exchange theories.Broker theories.Clock theories.Backtest
-  proofs.Orders proofs.BacktestProofs.
+  theories.Sizer theories.PCM theories.AllocTable proofs.Orders proofs.BacktestProofs proofs.AllocTableProofs.
 Import ListNotations.
 Open Scope Z_scope.
 
@@ -47,6 +47,52 @@ Theorem no_fill_before_the_first_rebalance :
     exists ta w, In (ta, OAlloc w) (run_from cfg sched market st evs) /\ ta <= t.
 Proof. exact no_fill_before_first_rebalance. Qed.
 Print Assumptions no_fill_before_the_first_rebalance.
+
+(** * The target-allocation table ([get_target_allocations], model: AllocTable.v) *)
+
+(** its dates are exactly the equity dates not before the burn-in date, in order *)
+Theorem allocation_table_dates : forall rows eq burn,
+  map fst (alloc_table rows eq burn) =
+  filter (fun d => match burn with Some b => day b <=? d | None => true end) eq.
+Proof. exact alloc_table_dates. Qed.
+Print Assumptions allocation_table_dates.
+
+(** each date carries THE row of the latest rebalance dated on or before it (rows recorded in time order, at
+    most one per day - which construction_and_equity_times gives), and no row at all before the first one *)
+Theorem allocation_table_carries_the_latest_rebalance : forall rows eq burn d o,
+  StronglySorted row_day_lt rows ->
+  In (d, o) (alloc_table rows eq burn) ->
+  match o with
+  | Some w => exists t, In (t, w) rows /\ day t <= d /\
+                        forall t' w', In (t', w') rows -> day t' <= d -> day t' <= day t
+  | None => Forall (fun r => d < day (fst r)) rows
+  end.
+Proof.
+  intros rows eq burn d o S I. apply alloc_table_rows in I. subst o.
+  destruct (latest_row rows d) as [w|] eqn:L.
+  - apply (latest_row_spec rows d S w). exact L.
+  - apply latest_row_none. exact L.
+Qed.
+Print Assumptions allocation_table_carries_the_latest_rebalance.
+
+(** whole rows are carried forward, not columns: a cell is the latest row's own weight for that column and
+    stays missing when the latest row lacks the column, whatever earlier rows said; the columns are every
+    asset that some row names *)
+Theorem allocation_cells_and_columns : forall rows d col w a,
+  (latest_row rows d = Some w -> alloc_cell rows d col = w_find col w) /\
+  (In a (alloc_columns rows) <-> exists t w', In (t, w') rows /\ In a (map fst w')).
+Proof. intros. split; [apply cell_is_the_latest_rows_own|apply alloc_columns_spec]. Qed.
+Print Assumptions allocation_cells_and_columns.
+
+Example allocation_table_nonvacuous :
+  alloc_table [(18276 * 86400 + 75600, [("A"%string, 1%Q); ("B"%string, 0%Q)]); (18283 * 86400 + 75600, [("A"%string, (1 # 2)%Q)])]
+              [18275; 18276; 18277; 18283; 18284] (Some (18276 * 86400)) =
+  [(18276, Some [("A"%string, 1%Q); ("B"%string, 0%Q)]); (18277, Some [("A"%string, 1%Q); ("B"%string, 0%Q)]);
+   (18283, Some [("A"%string, (1 # 2)%Q)]); (18284, Some [("A"%string, (1 # 2)%Q)])] /\
+  alloc_cell [(18276 * 86400 + 75600, [("A"%string, 1%Q); ("B"%string, 0%Q)]); (18283 * 86400 + 75600, [("A"%string, (1 # 2)%Q)])]
+             18284 "B" = None.
+Proof. split; vm_compute; reflexivity. Qed.
+Print Assumptions allocation_table_nonvacuous.
 
 (** Non-vacuity: weekly (Wednesday) rebalancing with a burn-in on the second Wednesday's close:
     construction runs once, the fill comes at Thursday's open, equity is daily from the burn-in on. *)
